@@ -51,7 +51,7 @@ check('C10', 'effect-ordering (typestate) analysis: no read of an element-refere
 
 check('C01', 'array-segmentation abstract interpretation of every inserting / removing / replacing vector member (segment bounds = linear forms over size, position, count; Fourier-Motzkin constraint store; helpers inlined; memory algorithms as transformers; final storage compared with the std::vector result) + typestate / dataflow rules over the instantiated program (size-word write discipline, capacity-check dominance, single-pass iterator use, union-alternative state) + record-layout facts',
       'SEG-LAYOUT decides, for every instantiation of the matrix and every N, P, C at once, that each of insert x5 / emplace / erase x2 / push_back / emplace_back / pop_back / clear / resize x2 / assign x3 / append x4 leaves on every normal path exactly the storage std::vector leaves (which slot holds which old element, the new elements in order, size(), nothing alive beyond it): the one-step refinement of C01 for these operations, multi-pass ranges, normal paths. Plus structural clauses each necessary for C01 (inline encoding discipline, inline span, single traversal of input ranges, capacity check before every construct, size commit follows lifetime op). Sequences over whole histories follow by induction only for the operations covered; exceptional paths, single-pass ranges, swap / assignment operators and element values are not decided by it.',
-      'Also decided: RET-POS (abstract interpretation - storage versions x linear offsets - of every position-returning member: the returned iterator is the index of the position argument in the current storage), VALUE-INIT (who-may-call: no default-initialisation in the vector classes), BYTECMP, ALIAS, result types (SIG witnesses), UNION-STATE (the heap pointer of the pointer / inline-elements union is read only where the vector is known to be on the heap; requirements of private helpers travel to their call sites), SIGN-DIFF (no difference of two unsigned sizes is computed in the narrow unsigned type and then widened to a signed one). Partial: necessary conditions only; element sequences over histories are not decided.',
+      'Also decided: RET-POS (abstract interpretation - storage versions x linear offsets - of every position-returning member: the returned iterator is the index of the position argument in the current storage), VALUE-INIT (who-may-call: no default-initialisation in the vector classes), BYTECMP, ALIAS, result types (SIG witnesses), XCHG-LAYOUT (swap_impl / move_construct / move_assign of SmallVectorBase interpreted with two objects for every pair of states of the inline encoding: each vector decodes afterwards to the size and elements it was to receive, a moved-from vector is empty and inline, every heap block ends owned once or released once with its capacity), UNION-STATE (the heap pointer of the pointer / inline-elements union is read only where the vector is known to be on the heap; requirements of private helpers travel to their call sites), SIGN-DIFF (no difference of two unsigned sizes is computed in the narrow unsigned type and then widened to a signed one). Partial: necessary conditions only; element sequences over histories are not decided.',
       'DESIGN.md section 4, C01')
 
 check('C02', 'who-may-call analysis of byte copies over the resolved call graph (incl. libstdc++ bodies) per element archetype + overload-pair effect signatures + typestate (normal paths) + array-segmentation abstract interpretation with slot liveness (construct only on raw, assign / destroy / read only on alive, exactly [0,size()) alive on return)',
@@ -61,7 +61,7 @@ check('C02', 'who-may-call analysis of byte copies over the resolved call graph 
 
 check('C06', 'argument-provenance and typestate rules on allocator call sites (who passes which word), release-on-all-heap-paths analysis, hand-over effect analysis',
       'Decides that every deallocate/reallocate call site passes the block with the capacity word that travels with it, that every path that abandons or overwrites a storage pointer released the block first, that hand-over transfers pointer+capacity jointly without element operations, and that reallocate is reached only for relocatable element types.',
-      'Also: GROW-LAYOUT (grow / shrink / resetToSmall interpreted over the whole object - size words, storage pointer, inline / owned / new block, allocator events - once per state of the inline encoding: elements relocated completely and in order, words decode to the same size and the new capacity, old block given back once with its capacity). Also: UNION-STATE, BLOCK (fresh blocks owned or given back on every exit), XALLOC (buffers exchanged only between equal allocator type and size_type), STALE-READ (the capacity travels with the block in swap2). Partial: exactly-once as a count over histories and unequal stateful allocators are not decided.',
+      'Also: XCHG-LAYOUT (block ownership and contents across swap_impl / move_construct / move_assign for every pair of states). Also: GROW-LAYOUT (grow / shrink / resetToSmall interpreted over the whole object - size words, storage pointer, inline / owned / new block, allocator events - once per state of the inline encoding: elements relocated completely and in order, words decode to the same size and the new capacity, old block given back once with its capacity). Also: UNION-STATE, BLOCK (fresh blocks owned or given back on every exit), XALLOC (buffers exchanged only between equal allocator type and size_type), STALE-READ (the capacity travels with the block in swap2). Partial: exactly-once as a count over histories and unequal stateful allocators are not decided.',
       'DESIGN.md section 4, C06')
 
 check('C13', 'typestate rules over every swap2 instantiation (ordered flavour pairs): throw-before-mutation ordering, size-word write discipline, noexcept soundness on the call graph, capacity-check dominance',
